@@ -37,9 +37,9 @@ Definition dummy_tree : tree := T None [] [] [].
 
 Definition input_of (c : ccase) : option input :=
   match cc_tree c with
-  | [] => Some (In (cc_sep c) (cc_dup c) dummy_tree (cc_tsep c) [] (cc_pcol c) (cc_rows c))
+  | [] => Some (MkIn (cc_sep c) (cc_dup c) dummy_tree (cc_tsep c) [] (cc_pcol c) (cc_rows c))
   | l => match decode l with
-         | Some t => Some (In (cc_sep c) (cc_dup c) t (cc_tsep c) (nth (cc_start c) (all_pos t) [])
+         | Some t => Some (MkIn (cc_sep c) (cc_dup c) t (cc_tsep c) (nth (cc_start c) (all_pos t) [])
                               (cc_pcol c) (cc_rows c))
          | None => None
          end
